@@ -32,11 +32,43 @@ type implReplayer struct {
 	n     int // events sent
 	err   string
 	last  []string
+	// round 6: with a registered plugin the machine is also asked what it tells the plugin while it
+	// executes each event (`plug <event>`, Impl.pluginCalls), before the event is applied
+	plug  bool
+	calls []string
+}
+
+// plugEvent turns an `impl …` request into the event words of the `plug` op.
+func plugEvent(line string) string {
+	w := strings.Fields(line)
+	if len(w) < 2 || w[0] != "impl" {
+		return ""
+	}
+	if w[1] == "deliverv" && len(w) == 6 { // impl deliverv REQ B VERHEX C (an observed store: supported version)
+		return "deliver " + w[2] + " " + w[3] + " " + w[5]
+	}
+	return strings.Join(w[1:], " ")
 }
 
 func (p *implReplayer) ask(line string) (obs string) {
 	if p.err != "" {
 		return ""
+	}
+	if p.plug {
+		if ev := plugEvent(line); ev != "" {
+			a, err := p.drv.Ask("plug " + ev)
+			if err != nil {
+				p.err = "driver: " + err.Error()
+				return ""
+			}
+			if a == "bad-op" || a == "" {
+				p.err = fmt.Sprintf("driver answered %q to plug %s", a, ev)
+				return ""
+			}
+			if a != "-" {
+				p.calls = append(p.calls, strings.Split(a, ";")...)
+			}
+		}
 	}
 	a, err := p.drv.Ask(line)
 	if err != nil {
@@ -139,7 +171,7 @@ func answersFor(id *ids, log []entry, from, to int, h uint64) []string {
 // difference. compared = number of events checked.
 func implReplay(drv *lib.Driver, id *ids, sc Scenario, out *outcome, pre []*lib.Bundle, notifOf func(k int) []string, failedRevert map[int]bool) (diff string, compared int, hits map[string]int) {
 	hits = map[string]int{}
-	p := &implReplayer{drv: drv, id: id, task: "-"}
+	p := &implReplayer{drv: drv, id: id, task: "-", plug: sc.Plugin}
 	if a, err := drv.Ask(strings.TrimSpace("impl-init " + chainTokens(id, pre))); err != nil || a != "ok" {
 		return fmt.Sprintf("impl-init: %q %v", a, err), 0, hits
 	}
@@ -348,6 +380,33 @@ func implReplay(drv *lib.Driver, id *ids, sc Scenario, out *outcome, pre []*lib.
 	}
 	if !strings.HasPrefix(a, want+" ") {
 		return fmt.Sprintf("final state: machine %q, node %q", a, want), p.n, hits
+	}
+	if p.plug {
+		// what the REAL plugin was told, call by call (also the `to` block of every RevertBlock and the
+		// calls made before a RevertHead that failed), against Impl.pluginCalls of the replayed events
+		var got []string
+		for _, c := range out.plugin {
+			hh := c.hash
+			switch {
+			case !c.revert:
+				got = append(got, fmt.Sprintf("nb %d %d", c.num, id.of(&hh)))
+			case c.toNil:
+				got = append(got, fmt.Sprintf("rb %d %d -", c.num, id.of(&hh)))
+			default:
+				th := c.toHash
+				got = append(got, fmt.Sprintf("rb %d %d %d:%d", c.num, id.of(&hh), c.toNum, id.of(&th)))
+			}
+		}
+		hits["plugin:calls-compared-with-model"] += len(got)
+		for _, g := range got {
+			if strings.HasPrefix(g, "rb ") && strings.HasSuffix(g, " -") {
+				hits["plugin:revert-of-the-genesis(to=nil)"]++
+			}
+		}
+		if strings.Join(got, ";") != strings.Join(p.calls, ";") {
+			return fmt.Sprintf("plugin calls: machine %q, real plugin %q", strings.Join(p.calls, ";"), strings.Join(got, ";")), p.n, hits
+		}
+		return "", p.n + 1 + len(got), hits
 	}
 	return "", p.n + 1, hits
 }
